@@ -1,5 +1,5 @@
 (* C07 — equivalent ODE models agree: SIR hierarchy and regular-graph reductions.
-   Only statements; proofs are in Proofs/RhsP.v.  Every statement is about the
+   Only statements; proofs are in Proofs/Rhs7P.v.  Every statement is about the
    GENERATED right-hand sides of Gen/Rhs.v (re-emitted from EoN/analytic.py by
    translate/rhs2v.py on every run).
 
@@ -23,7 +23,7 @@
    the heterogeneous pairwise, pair-based and individual-based reductions (2-D
    and node-level systems, not translated), the SIR heterogeneous mean-field
    reduction, and the matching of the wrappers' initial conditions. *)
-From EoNV Require Import Prelude Vec VecP Aux Rhs RhsP.
+From EoNV Require Import Prelude Vec VecP Aux Rhs Rhs7P.
 
 (* ---- regular graphs: single degree class k, Phi o rhs_big = rhs_small o Phi ---- *)
 (* heterogeneous mean-field SIS on the invariant subspace {S_j = I_j = 0, j <> k}
